@@ -694,3 +694,9 @@ def run(ctx: Ctx):
                 "the DPR/DPA exchange of a shutdown: send_dpr marks DISCONNECTING, a DPA always "
                 "leads to CLOSING + wake-up, and nothing turns a DISCONNECTING connection back into a "
                 "ready one", floor=5)
+    from . import c15
+    ctx.include(c15.run, {"C15-R2", "C15-R5"}, "C18-R3d",
+                "the DPR that stop() queues reaches the write buffer whatever else is queued with it: the "
+                "writer appends each dequeued message by itself, so one message that cannot be encoded "
+                "is dropped alone and does not take the DPR (and the wait for the DPA) with it", floor=2,
+                constructs=lambda c: "work_write_queue" in c)
